@@ -181,6 +181,7 @@ def main(argv):
                        'whole-system run: atax -gpus=1,2 -timing -use-unified-memory (needs the platform wiring fix; unavailable while C01 finding unified-memory-timing-multi-gpu is open)',
                        'theorem migration_every_page_copied_and_remapped: allocator hygiene (a free physical page is listed once, on one device, and is not mapped; C10 territory), distinct aligned pages in one request; '
                        'theorem handshake_every_page_once: GPUReqToVAddrMap has one group per GPU number (it is a Go map) and the map iteration visits every group once',
+                       'theorem completion_retried_until_sent / late-MMU scenarios: the driver has ONE slot for an answer the MMU port refused; the MMU side is at most one whole migration late (a third pending answer would overwrite the slot - observation in docs/C19.md)',
                        'handshake scenarios: the harness plays MMU, command processors and physical memory (one 4 KiB byte array per physical page); a PageMigrationReqToCP is executed as a page copy when it is acknowledged',
                        'sampled schedules only decide whether the real controllers still behave like the model']
     thorough = vlib.tier() == 'thorough'
@@ -287,6 +288,10 @@ def main(argv):
                              'handshake_requests_with_2_or_more_requesting_gpus': sum(c.get('multigroup', 0) for c in hcases),
                              'handshake_groups_with_2_or_more_pages': sum(c.get('multipage', 0) for c in hcases),
                              'handshake_pages_migrated': sum(c.get('pages', 0) for c in hcases),
+                             'handshake_cases_with_2_or_more_processes': sum(1 for c in hcases if c.get('procs', 0) >= 2),
+                             'handshake_extra_contexts_InitWithExistingPID': sum(c.get('extractx', 0) for c in hcases),
+                             'handshake_cases_with_late_mmu': sum(1 for c in hcases if c.get('late')),
+                             'handshake_max_completion_delay_cycles': max([c.get('maxlate', 0) for c in hcases] or [0]),
                              'handshake_model_mismatches': len(hmism), 'handshake_monitor_failures': len(hbad)})
         if hbad:
             c = dict(hbad[0])
